@@ -4,7 +4,7 @@ import Driver.C11
 /-! Driver for C19: the sequential oracle for concurrent quadtree queries.
     `conc <bound> <nb> build-ops… <M> query-ops… <G> <R> <buf> =>
        res_1 ; … ; res_M ; F <same> <treeSame> <buildSame> <oracleTreeSame> <lateSame> <boundSame>
-                             <keptStable> <keptOracle> <listSame>`
+                             <keptStable> <keptOracle> <listSame> <argsSame>`
     buf          0: every query gets a nil buffer; 1: every goroutine follows `buf = q.Query(buf, …)`
                  (its previous result slice is the buffer of its next query); ≥ 2: mixed, drawn per
                  call from a per-goroutine generator seeded with this number: nil / the goroutine's
@@ -28,6 +28,13 @@ import Driver.C11
     listSame     after the concurrent phase the whole-tree listings of the shared tree (InBound over
                  the tree bound and beyond, KNearest with k ≥ number of stored pointers, nil buffers)
                  equal those of the identically built oracle tree
+    argsSame     the distance limits of the k-nearest queries live in ONE limits array per case; every
+                 goroutine passes the same sub-slice of it with `lim...` (the library receives the
+                 caller's own slice); the array — limits and the sentinels around them — and the
+                 oracle pass's private copy read after the sequential pass, after the concurrent
+                 phase and after the late pass bit for bit what the harness stored.  The limit is
+                 a value (Orb.Quadtree.kNearestCall_limits_unchanged); only result buffers are
+                 per goroutine, every other argument may be shared read-only
     A data race reported by the race detector kills the harness process; `check` turns that into
     `propfail data-race` (no flag here). -/
 namespace Driver.C19
@@ -61,8 +68,9 @@ def handleConc (inp out : Toks) : String :=
       else s!"diff sequential answers differ from the model: {" ; ".intercalate mres}"
     fin <|
     match flags with
-    | ["F", same, treeSame, buildSame, oracleTreeSame, lateSame, boundSame, keptStable, keptOracle, listSame] =>
+    | ["F", same, treeSame, buildSame, oracleTreeSame, lateSame, boundSame, keptStable, keptOracle, listSame, argsSame] =>
       if buildSame != "1" then "propfail same-history-different-tree" else
+      if argsSame != "1" then "propfail argument-mutated limit" else
       if keptStable != "1" then "propfail result-changed-after-return" else
       if same != "1" then "propfail concurrent-answer-differs" else
       if keptOracle != "1" then "propfail kept-result-differs-from-oracle" else
@@ -71,7 +79,9 @@ def handleConc (inp out : Toks) : String :=
       if boundSame != "1" then "propfail bound-changed" else
       if listSame != "1" then "propfail listing-differs-after" else
       if lateSame != "1" then "propfail answer-differs-after-concurrent-phase" else
-      let bufTag := if bm == 0 then "buf-nil" else if bm == 1 then "buf-reused" else "buf-mixed"
+      let limited := qs.any fun | .knear _ _ _ _ (some _) => true | _ => false
+      let bufTag := (if bm == 0 then "buf-nil" else if bm == 1 then "buf-reused" else "buf-mixed") ++
+        (if limited then " shared-limits" else "")
       if g ≥ 2 then (if build.any (fun | .remId _ _ | .remPt _ => true | _ => false) then s!"ok conc-after-removals {bufTag}" else s!"ok conc {bufTag}") else "ok triv-single"
     | _ => "bad flags"
 
